@@ -271,7 +271,7 @@ def r_loop(ctx, tv, rule='S1-LOOP'):
             else:
                 # an error raised inside a (virtually inlined) helper leaves the loop as an `Err(..)` value that the
                 # caller's `?` then returns: follow the values along the path (the source block builds the Err)
-                fr = paths.feasible_reach(f, b, avoid=[x for x in f.succ(b) if x != s])
+                fr = paths.feasible_reach(f, b, first_edge=s)
                 goods2 = [rb for rb, k, t in paths.ret_assigns(f) if k in ('ok', 'call', 'other') and rb in fr]
                 if not goods2:
                     kind = 'error'
